@@ -69,7 +69,38 @@ def check_e(case):
 
 
 def check_any(case):
-    return check_e(case) if case[0] == "E" else check(case)
+    return check_e(case) if case[0] == "E" else check_o(case) if case[0] == "O" else check(case)
+
+
+def check_o(case):
+    """GFA2 -> GFA1 of an ordered group over one dovetail E line: a path over the link the edge becomes, or no path at all"""
+    _, lines, want = case            # want: ["A+,B+", "2M1D"] or None (the walk does not follow the link: no GFA1 path says the same)
+    fails = []
+    def fail(sig, what):
+        fails.append(dict(signature="C06:" + sig, what=what, case=dict(lines=lines, want=want),
+                          reproducer="import gfapy\ng = gfapy.Gfa(%r, vlevel=1)\nprint(g.to_gfa1())" % (lines,)))
+    try:
+        g = gfapy.Gfa(lines, vlevel=1)
+        try:
+            t1 = str(g.to_gfa1())
+        except gfapy.Error as e:
+            if want is not None:
+                fail("o-to-gfa1:raises-%s" % type(e).__name__, harness.short(e, 200))
+            return dict(key=tuple(lines), nontrivial=True, failures=fails, sample=dict(lines=lines, refused=True))
+        p = [l.split("\t") for l in t1.split("\n") if l.startswith("P\t")]
+        if "GFAPY_virtual_line" in t1:
+            fail("o-to-gfa1:path-over-a-link-that-does-not-exist", t1)
+        elif want is None and p:
+            fail("o-to-gfa1:walk-against-the-link-converted", t1)
+        elif want is not None and (len(p) != 1 or p[0][2:4] != want):
+            fail("o-to-gfa1:path-differs", "want %s got %s" % (want, p))
+        else:
+            gfapy.Gfa(t1, vlevel=3).validate()
+    except gfapy.Error as e:
+        fail("o-to-gfa1:setup-or-reparse-raises-%s" % type(e).__name__, harness.short(e, 200))
+    except Exception as e:
+        fail("o-to-gfa1:foreign-%s" % type(e).__name__, harness.short(e, 200))
+    return dict(key=tuple(lines), nontrivial=True, failures=fails, sample=dict(lines=lines))
 
 
 def check(case):
@@ -207,6 +238,17 @@ def cases(tier, seed):
                 j2 = ("0", str(qry)) if o2 == "+" else (str(8 - qry), "8$")
                 e = "E\tx2\tA%s\tB%s\t%s\t%s\t%s\t%s\t%s" % (o1, o2, j1[0], j1[1], j2[0], j2[1], cg)
                 out.append(("E", [S2["A"], S2["B"], e], ["L", "A", o1, "B", o2, cg]))
+                # ordered groups over that edge (either spelling): along the link, along its complement, and the two walks which go against it; with and without naming the edge
+                inv = {"+": "-", "-": "+"}
+                F, T = "B" + o2, "A" + o1                       # x1 is the link F -> T with the overlap complement(cg)
+                lk = oracle.cigar_complement(cg)
+                e1 = "E\tx1\tA%s\tB%s\t%s\t%s\t%s\t%s\t%s" % (o1, o2, i1[0], i1[1], i2[0], i2[1], cg)
+                Fi, Ti = "B" + inv[o2], "A" + inv[o1]
+                for items, want in (([F, T], [F + "," + T, lk]), ([Ti, Fi], [Ti + "," + Fi, oracle.cigar_complement(lk)]), ([T, F], None), ([Fi, Ti], None)):
+                    out.append(("O", [S2["A"], S2["B"], e1, "O\tp\t" + " ".join(items)], want))
+                    # the sign of a named edge: + when it joins the two oriented segments as written, - when it joins their inversions
+                    sign = "+" if set(items) == {"A" + o1, "B" + o2} else "-"
+                    out.append(("O", [S2["A"], S2["B"], e1, "O\tp\t%s x1%s %s" % (items[0], sign, items[1])], want))
         # containment with sid1 contained: C (6) whole inside A (8) at offset 1; alignment reference = C (sid1)
     for cg, off in (("6M", 1), ("3M1D3M", 0), ("2M1I3M", 2)):
         ref, qry = oracle.cigar_len_ref(cg), oracle.cigar_len_qry(cg)
@@ -242,5 +284,6 @@ if __name__ == "__main__":
                       rule="GFA1 graphs with known segment lengths: every orientation pair x (A-B, B-C, self A-A, C-A) x 8 CIGARs (asymmetric, full-length) as named/unnamed link, containments at offset 0/1/flush right, "
                            "and seeded chains with a path (forward, reverse over complements, two-segment, single-segment); whole-graph to_gfa2(): converted text valid at vlevel 3, segments keep length/sequence/tags, "
                            "every E line has the oracle coordinates ($ exactly at a segment's end) and the same alignment, paths visit the same oriented segments; to_gfa1() of the result equals the original "
-                           "(modulo assigned IDs / LN tags)", bound="3 segments, <=2 edges, <=1 path", exhaustive=False)
+                           "(modulo assigned IDs / LN tags). GFA2-origin: single E lines whose sid1 is the 'to' / contained segment, and an ordered group over each such dovetail - walked along the link, along its complement, "
+                           "and against it (no GFA1 path says that: refused, never a path over a link that does not exist), the edge named or implied", bound="3 segments, <=2 edges, <=1 path", exhaustive=False)
     harness.emit(res)
